@@ -133,6 +133,9 @@ def gen_db(rnd, kind):
         w = rnd.choice(WORDS)
         for k in range(rnd.randint(6, 12)):
             es.append(dict(command="%s %s%d" % (rnd.choice(TOOLS), w, k), description="%s number %d" % (w, k), keywords=[w], pipeline=False))
+    if kind == "hostile" and rnd.random() < 0.7:  # an entry whose text carries escape sequences (printed raw by list / table)
+        es.insert(rnd.randrange(len(es) + 1), dict(command="printf '\x1b[31mcrimson\x1b[0m' paint", description="Paint crimson \x1b[1mglyphs\x1b[0m on the terminal",
+                                                    keywords=["crimson", "paint", "\x1b[5mglyph"], niche="term\x1b[0m", platform=["linux", "cross-platform"], pipeline=False))
     if kind == "block":
         out = []
         for e in es:
@@ -164,9 +167,22 @@ def db_words(entries, rnd):
 
 def gen_query(rnd, entries):
     """returns (class, list of argv words)"""
-    c = rnd.choices(["lexical", "fuzzy", "recovery", "nothing", "rejected", "weird"], [34, 14, 16, 8, 12, 16])[0]
+    c = rnd.choices(["lexical", "fuzzy", "recovery", "recovery-many", "nothing", "rejected", "weird"], [32, 14, 14, 8, 6, 10, 16])[0]
     ws = db_words(entries, rnd)
+    if c == "recovery-many":
+        # a fragment of the word most commands share: the recovery strategies answer with more entries than a small limit
+        cnt = {}
+        for e in entries:
+            for w in set(re.findall(r"[a-z]{4,}", e["command"].lower())):
+                cnt[w] = cnt.get(w, 0) + 1
+        if not cnt:
+            c = "recovery"
+        else:
+            w = max(sorted(cnt), key=lambda k: cnt[k])
+            return c, [rnd.choice(["qzxj", "zzqj"]) + " " + w[:max(3, len(w) - 2)]]
     if c == "lexical":
+        if "crimson" in ws and rnd.random() < 0.3:
+            return c, [rnd.choice(["paint crimson", "crimson glyphs", "paint terminal"])]
         return c, [" ".join(rnd.sample(ws, min(len(ws), rnd.randint(1, 3))))]
     if c == "fuzzy":
         return c, [" ".join(misspell(rnd, w) for w in rnd.sample(ws, min(len(ws), rnd.randint(1, 2))))]
@@ -536,7 +552,7 @@ def search_stream(ctx, wtf, n_sessions, opts_fact, colors):
         return
     for r, l in zip(runs, lines):
         r.exp = json.loads(l)
-    evaluate(ctx, runs, colors)
+    evaluate(ctx, runs, colors, bool(opts_fact.get("UseFuzzy")))
 
 
 def replay_of(r, **extra):
@@ -549,7 +565,7 @@ def replay_of(r, **extra):
     return d
 
 
-def evaluate(ctx, runs, colors):
+def evaluate(ctx, runs, colors, use_fuzzy=True):
     colors_on = {k: v.encode("latin-1") for k, v in colors.items()}
     colors_off = {k: b"" for k in colors}
     ops, impl = [], []
@@ -581,8 +597,13 @@ def evaluate(ctx, runs, colors):
             if e["engine"]:
                 answer, path = e["engine"], ("engine" if e["engine_without_fuzzy"] > 0 else "fuzzy")
             else:
-                rec = [] if e["recovery_err"] else [h for h in e["recovery"] if h["pass"]][:limit]
+                passing = [] if e["recovery_err"] else [h for h in e["recovery"] if h["pass"]]
+                rec = passing[:limit]
                 answer, path = rec, ("recovery" if rec else "nothing")
+                if len(passing) > limit:
+                    tag("recovery.cut-by-limit")
+                if len(passing) < len(e["recovery"]):
+                    tag("recovery.gated-by-platform")
             for name, hs in (("engine", e["engine"]), ("recovery", e["recovery"])):
                 if any(hs[i]["score"] < hs[i + 1]["score"] for i in range(len(hs) - 1)):
                     n_hyp_bad += 1
@@ -784,8 +805,10 @@ def evaluate(ctx, runs, colors):
     ctx.oblige("hypothesis:answers-sorted-and-bounded", "correspondence", n_hyp_bad == 0,
                "engine / recovery answers sorted by score and engine answer within Limit on all %d runs (hypotheses of prints_engine / limit)" % len(runs))
     # every path must have been reached
-    need = ["path.engine", "path.fuzzy", "path.recovery", "path.nothing", "path.rejected", "format.list", "format.table", "format.json",
+    need = ["path.engine", "path.recovery", "recovery.cut-by-limit", "recovery.gated-by-platform", "path.nothing", "path.rejected", "format.list", "format.table", "format.json",
             "no-color.flag", "no-color.env", "colored", "history.replaced-equal-last", "history.must-stay-untouched", "answer-fills-limit"]
+    if use_fuzzy:
+        need.append("path.fuzzy")
     missing = [k for k in need if not dist.get(k)]
     ctx.oblige("coverage:every-path-reached", "coverage", not missing, "missing: %s; distribution: %s" % (missing, json.dumps(dist, sort_keys=True)))
 
@@ -920,8 +943,8 @@ def run(ctx):
     # the binary is copied so that a concurrent rebuild cannot change it under the run
     mine = os.path.join(ctx.rundir, "wtf")
     shutil.copy2(wtf, mine)
-    search_stream(ctx, mine, 70 if quick else 900, opts, colors)
-    subcommand_stream(ctx, mine, 270 if quick else 4000)
+    search_stream(ctx, mine, 100 if quick else 1200, opts, colors)
+    subcommand_stream(ctx, mine, 315 if quick else 4500)
 
 
 def replay(ctx, rep):
